@@ -185,6 +185,97 @@ func c18Grammar(c *core.Ctx, r *rand.Rand, n int) {
 	}
 }
 
+// c18Sequences: the parser must be a function of the string alone. Sequences are built to expose state
+// remembered between calls: a base timestamp A; neighbours B that differ from A in exactly one component
+// by +-2^k (what an aliasing cache key or a truncated field drops) and therefore have A's length; repeats
+// (A, A); and the read buffer's bank closed between reads so that memory a cache may have kept is recycled.
+func c18Sequences(c *core.Ctx, r *rand.Rand, n int) {
+	type comp [10]int // year mon day hour min sec zoneSign zh zm fracSeed
+	limits := [9][2]int{{0, 9999}, {1, 12}, {1, 28}, {0, 23}, {0, 59}, {0, 59}, {0, 1}, {0, 23}, {0, 59}}
+	for k := 0; k < n; k++ {
+		var base comp
+		for f := range limits {
+			base[f] = limits[f][0] + r.IntN(limits[f][1]-limits[f][0]+1)
+		}
+		nf := r.IntN(11)
+		frac := ""
+		for d := 0; d < nf; d++ {
+			frac += string(rune('0' + r.IntN(10)))
+		}
+		form := r.IntN(8) // 0: date only; 1: Z; else numeric offset
+		render := func(x comp) string {
+			if form == 0 {
+				return fmt.Sprintf("%04d-%02d-%02d", x[0], x[1], x[2])
+			}
+			s := fmt.Sprintf("%04d-%02d-%02dT%02d:%02d:%02d", x[0], x[1], x[2], x[3], x[4], x[5])
+			if nf > 0 {
+				s += "." + frac
+			}
+			if form == 1 {
+				return s + "Z"
+			}
+			return s + fmt.Sprintf("%c%02d:%02d", "+-"[x[6]], x[7], x[8])
+		}
+		check := func(s, where string) bool {
+			c.Journal(c.CurCase(), "seq s="+s)
+			var want time.Time
+			var err error
+			if form == 0 {
+				want, err = time.Parse("2006-01-02", s)
+			} else {
+				want, err = time.Parse(time.RFC3339, s)
+			}
+			got, lerr, p := libParse(c18rb, s)
+			c.Eval(1)
+			c.Count("sequence.parses", 1)
+			if p != nil {
+				c.Violate("panic", fmt.Sprintf("parsing %q panicked: %v", s, p), map[string]any{"s": s})
+				return false
+			}
+			if err != nil {
+				return true
+			}
+			if lerr != nil {
+				c.Violate("rejects-valid", fmt.Sprintf("%q (%s) is accepted by the standard library but the library fails: %v", s, where, lerr), map[string]any{"s": s})
+				return false
+			}
+			if !sameTime(got, want) {
+				c.Violate("instant", fmt.Sprintf("%q (%s): library %s, standard library %s", s, where, got.Format(time.RFC3339Nano), want.Format(time.RFC3339Nano)), map[string]any{"s": s})
+				return false
+			}
+			return true
+		}
+		closeBank := func() { c18rb.ExtractResourceBank().Close() }
+		A := render(base)
+		f := r.IntN(9)
+		if form == 0 {
+			f = r.IntN(3)
+		}
+		for j := 0; j < 14; j++ {
+			for _, sign := range []int{1, -1} {
+				m := base
+				m[f] = base[f] + sign*(1<<j)
+				if m[f] < limits[f][0] || m[f] > limits[f][1] {
+					continue
+				}
+				B := render(m)
+				c.Count("sequence.neighbour-pairs", 1)
+				ok := check(A, "base") && check(A, "base again")
+				if ok && r.IntN(2) == 0 {
+					closeBank()
+				}
+				ok = ok && check(B, "after its neighbour "+A) && check(B, "again") && check(A, "after its neighbour "+B)
+				if !ok {
+					return
+				}
+				if r.IntN(2) == 0 {
+					closeBank()
+				}
+			}
+		}
+	}
+}
+
 func c18RoundTrip(c *core.Ctx, r *rand.Rand, n int) {
 	wb := avro.NewWriteBuf(nil)
 	for k := 0; k < n; k++ {
@@ -340,6 +431,7 @@ func runC18(c *core.Ctx, i int) {
 	c18RoundTrip(c, r, 3000*scale)
 	c18NoPanic(c, r, 1500*scale)
 	c18ViaReadFile(c, r, 200)
+	c18Sequences(c, r, 150*scale)
 	if i%16 == 0 {
 		c.Sample(map[string]any{"grammar_example": genRFC3339(r), "roundtrip_example": gen.Time(r, gen.ValOpts{Mode: gen.ModeFull}).Format(time.RFC3339Nano)})
 	}
@@ -350,7 +442,7 @@ func init() {
 		ID:        "C18",
 		Level:     "exploration",
 		Technique: "runtime monitoring: differential oracle (Go standard library time.Parse) over grammar-generated RFC 3339 strings, every calendar date, format/parse round trips and hostile mutations, driven through the exported time codec and ReadFile",
-		Rule: "grammar-generated RFC 3339 strings (two-digit fields, fraction lengths 1..30 with '.' or ',', Z or numeric offset, boundary/out-of-range field values) filtered by standard-library acceptance; every date 0000-01-01..9999-12-31; random time.Time values formatted with RFC3339Nano; prefix/substitution/insertion/deletion mutations for the no-panic clause; " +
+		Rule: "grammar-generated RFC 3339 strings (two-digit fields, fraction lengths 1..30 with '.' or ',', Z or numeric offset, boundary/out-of-range field values) filtered by standard-library acceptance; every date 0000-01-01..9999-12-31; random time.Time values formatted with RFC3339Nano; prefix/substitution/insertion/deletion mutations for the no-panic clause; history sequences (A, A, [bank closed], B, B, A with B differing from A in one component by +-2^k, k = 0..13); " +
 			"distinct_nontrivial = distinct (fraction length, zone form, separator) classes among stdlib-accepted strings plus date chunks",
 		Explanation: "The domain is defined by time.Parse(RFC3339) acceptance, so the oracle cannot ask for more than the property; results are compared by instant (Equal) and zone offset. Each string is journalled before the call so a panic inside the library is attributed.",
 		Modes: func(tier string) []core.Mode {
@@ -376,6 +468,9 @@ func init() {
 			}
 			if a.C("dates") < 3652425 {
 				u = append(u, fmt.Sprintf("dates=%d < 3652425", a.C("dates")))
+			}
+			if a.C("sequence.neighbour-pairs") < 10000 {
+				u = append(u, fmt.Sprintf("sequence neighbour pairs %d < 10000", a.C("sequence.neighbour-pairs")))
 			}
 			if a.C("nopanic.inputs") < 50000 {
 				u = append(u, "too few no-panic inputs")
